@@ -29,7 +29,8 @@ def run(tier, mode):
     for i in range(n):
         D = P.gen_desc(r)
         layout = P.LAYOUTS[i % 4]
-        text = P.render(r, D, layout)
+        # the colon after a section reference may be preceded by blanks of any kind and number (the pattern reads `\s*:`)
+        text = P.render(r, D, layout, colons=[':', ':', ':', ' :', '\n:', ' \n:', '\n\n:', '\xa0 :', '\t:'] if i % 3 == 0 else None)
         texts.append(text)
         base = H.call(pytrs.PLSSDesc, text)
         if isinstance(base, H.Exn):
